@@ -22,6 +22,7 @@ import asyncio
 from pyvc.api import *  # noqa: F401,F403
 from pyvc.harness import harness, structural
 from ramses_tx import exceptions as exc
+from ramses_tx import protocol as P
 from ramses_tx import protocol_fsm as fsm
 
 from .c08_discipline import FakeAddr, FakeCmd, FakePkt, FakeProtocol, FakeQos, FakeQueue
@@ -64,6 +65,7 @@ class Fut(asyncio.Future):
         self.state = "pending"
         self.value = None
         self.waiter = None
+        self.by_timeout = False  # cancelled by the wait_for that awaits it (its timeout fired), not by anyone else
 
     def done(self):
         return self.state != "pending"
@@ -101,14 +103,15 @@ class Fut(asyncio.Future):
 
 async def wait_for_contract(fut, timeout):
     """asyncio.wait_for: park the caller on the future; it wakes when the future is done -- by the
-    sender, or because the timeout fired and cancelled it (then: TimeoutError)."""
+    sender, or because the timeout fired and cancelled it (then: TimeoutError); a future that somebody
+    else cancelled gives the caller CancelledError, as asyncio does."""
     ghost("waits").append(timeout)
     if not fut.done():
         fut.waiter = ghost("current_caller")[-1]
         suspend("wait_for")
-    if fut.state == "cancelled":
+    if fut.state == "cancelled" and fut.by_timeout:
         raise TimeoutError()
-    return fut.result()
+    return fut.result()  # a future cancelled by anyone else: CancelledError propagates to the caller
 
 
 async def sleep_contract(delay, result=None):
@@ -124,6 +127,10 @@ def running_loop_contract():
 
 async def radio_write(cmd):
     ghost("sent").append(cmd)
+
+
+def last_sent():
+    return ghost("sent")[-1] if ghost("sent") else None
 
 
 def make_context(loop):
@@ -148,7 +155,12 @@ def run_one(loop, ctx):
         if not o.ok:
             loop.unhandled.append(o.exc)
     elif kind == "cancel_fut":   # the caller's timeout fired: wait_for cancels what it waits for
-        x.cancel()
+        if not x.done():
+            x.by_timeout = True
+            x.cancel()
+    elif kind == "caller":       # a caller's task gets its first step: send_cmd runs up to its await
+        ghost("current_caller").append(x)
+        start(x)
     elif kind == "step":         # first step of a task
         if not x.is_cancelled:
             start(x.task)
@@ -266,7 +278,7 @@ def one_command_episode(k, wait_for_reply, retries):
     while loop.ready and n < 20:
         run_one(loop, ctx)
         n += 1
-    check(And(len(ghost("sent")) == before + 1, ghost("sent")[-1] is cmd2), "a fresh command is then transmitted")
+    check(And(len(ghost("sent")) == before + 1, last_sent() is cmd2), "a fresh command is then transmitted")
     check(len(loop.unhandled) == 0, "and still nothing reached the loop's exception handler")
 
 
@@ -346,6 +358,253 @@ def two_callers_get_their_own_packets(k):
             check(t.value is pk[mine[1]], "a caller that awaits a reply gets the reply to ITS command, never another command's packet")
         elif t.done:
             check(isinstance(t.exc, exc.ProtocolError), "a send that does not return a packet raises a protocol error")
+    check(And(isinstance(ctx._state, fsm.IsInIdle), ctx._cmd is None, ctx._fut is None or ctx._fut.done(), ctx._expiry_timer is None,
+              len(ctx._que.items) == 0), "once traffic stops the sender is idle with nothing in flight and nothing queued")
+
+
+def _let_time_pass(loop, ctx, callers, limit):
+    """Quiescence: drain the ready queue; when it is empty let the running echo/reply timer expire;
+    when there is none let the timeout of a caller that is still waiting fire; repeat."""
+    steps = 0
+    while True:
+        steps += 1
+        if steps > limit:
+            assume(False)
+        if loop.ready:
+            run_one(loop, ctx)
+            continue
+        lt = ctx._expiry_timer
+        if lt is not None and lt.sleeping and not lt.is_cancelled:
+            lt.sleeping = False
+            loop.ready.append(("wake", lt))
+            continue
+        pending = [(t, f) for t, f in callers if not t.done and f is not None and not f.done()]
+        if pending:
+            loop.ready.append(("cancel_fut", pending[0][1]))
+            continue
+        break
+
+
+@harness(("C09", "C07"), cases=[(k, w) for k in (1, 2, 3) for w in (True, False)], quick=lambda k, w: k <= 2, budget_s=1500, stubs=STUBS)
+def episode_with_disconnect(k, wait_for_reply):
+    """One caller sends one command (one retry allowed); then any k outside events, interleaved anywhere
+    with the loop's queued work, among: the echo / the reply arrives, the running timer expires, the caller's
+    timeout fires, the transport reports that the connection is LOST, the transport reports that a
+    connection is MADE.  Then time passes until nothing is left to happen.  On every such schedule:
+    nothing reached the loop's exception handler, the caller was answered with a packet of its command or
+    a protocol error, the sender is idle -- inactive if disconnected -- with nothing in flight; while
+    disconnected a send is refused with a protocol error at once; after (re)connecting a fresh command
+    is transmitted."""
+    loop = Loop()
+    ghost("loop").append(loop)
+    ctx = make_context(loop)
+    cmd = FakeCmd("cmd")
+    cmd.src = FakeAddr("18:000730")
+    qos = FakeQos(1, 3.0, wait_for_reply)
+    echo = FakePkt(cmd.tx_header, src="18:123456", dst="01:145038")
+    reply = FakePkt(cmd.rx_header)
+    connected = True
+    if sym_bool("the_loss_was_reported_just_before_the_send"):
+        # the transport's connection_lost callback is already queued when the caller runs: the sender is
+        # still idle when send_cmd queues the command, and inactive when the dequeue runs
+        connected = False
+        loop.ready.append(("call", (ctx.connection_lost, (None,))))
+    caller = spawn(ctx.send_cmd(radio_write, cmd, 2, qos), start=False)
+    ghost("current_caller").append(caller)
+    start(caller)
+    fut = ctx._que.items[0][4] if ctx._que.items else ctx._fut
+    timed_out = False
+    for i in range(k):
+        n = 0
+        while loop.ready and n < 12 and sym_bool(f"run_queued_{i}_{n}"):
+            run_one(loop, ctx)
+            n += 1
+        ev = sym_choice(f"event_{i}", ["echo", "reply", "timer", "caller_timeout", "lost", "made"])
+        if ev in ("echo", "reply"):
+            if not ghost("sent") or not connected:
+                assume(False)  # nothing transmitted yet / nothing is received while disconnected
+            loop.ready.append(("pkt", echo if ev == "echo" else reply))
+        elif ev == "timer":
+            lt = ctx._expiry_timer
+            if lt is None or not lt.sleeping or lt.is_cancelled:
+                assume(False)
+            lt.sleeping = False
+            loop.ready.append(("wake", lt))
+        elif ev == "caller_timeout":
+            if timed_out or caller.done or fut.done():
+                assume(False)
+            timed_out = True
+            loop.ready.append(("cancel_fut", fut))
+        elif ev == "lost":
+            if not connected:
+                assume(False)
+            connected = False
+            loop.ready.append(("call", (ctx.connection_lost, (None,))))
+        else:
+            if connected:
+                assume(False)
+            connected = True
+            loop.ready.append(("call", (ctx.connection_made, (None,))))
+    _let_time_pass(loop, ctx, [(caller, fut)], 100)
+    check(len(loop.unhandled) == 0, "no exception is left unhandled in the event loop (no internal consistency check trips)")
+    check(caller.done, "the caller has been answered")
+    if caller.done:
+        if caller.ok:
+            check(caller.value is echo or caller.value is reply, "the packet returned belongs to the command (its echo or its reply)")
+        else:
+            check(isinstance(caller.exc, exc.ProtocolError), "a send that does not return a packet raises a protocol error")
+    check(And(isinstance(ctx._state, fsm.IsInIdle if connected else fsm.Inactive), ctx._cmd is None, ctx._qos is None,
+              ctx._fut is None or ctx._fut.done(), ctx._expiry_timer is None),
+          "once traffic stops the sender is idle (inactive if disconnected) with nothing in flight")
+    if not connected:
+        before = len(ghost("sent"))
+        refused = spawn(ctx.send_cmd(radio_write, FakeCmd("while down"), 2, FakeQos(0, 3.0, False)), start=False)
+        ghost("current_caller").append(refused)
+        start(refused)
+        check(And(refused.done, isinstance(refused.exc, exc.ProtocolError)), "while disconnected a send is refused with a protocol error at once")
+        check(len(ghost("sent")) == before, "and nothing is transmitted")
+        loop.ready.append(("call", (ctx.connection_made, (None,))))
+        _let_time_pass(loop, ctx, [], 40)
+        check(isinstance(ctx._state, fsm.IsInIdle), "a connection made brings the sender back to idle")
+    before = len(ghost("sent"))
+    cmd2 = FakeCmd("next")
+    cmd2.src = FakeAddr("18:000730")
+    caller2 = spawn(ctx.send_cmd(radio_write, cmd2, 2, FakeQos(0, 3.0, False)), start=False)
+    ghost("current_caller").append(caller2)
+    start(caller2)
+    n = 0
+    while loop.ready and n < 20:
+        run_one(loop, ctx)
+        n += 1
+    check(And(len(ghost("sent")) == before + 1, last_sent() is cmd2), "a fresh command is then transmitted")
+    check(len(loop.unhandled) == 0, "and still nothing reached the loop's exception handler")
+
+
+class FakeTransport:
+    def __init__(self, hgi_id):
+        self.hgi_id = hgi_id
+
+    def get_extra_info(self, name, default=None):
+        return {"active_gwy": self.hgi_id, "is_evofw3": True}.get(name, default)
+
+
+@harness("C09", stubs=STUBS)
+def a_lost_connection_can_be_made_again():
+    """PortProtocol.connection_made / connection_lost / connection_made (the engine is stopped and
+    started again, or the dongle is re-plugged -- possibly another dongle with another id): no call
+    raises, the sender is idle after each connection made and inactive after the loss, the gateway
+    id in use is the one of the transport connected last, and a command is then transmitted."""
+    loop = Loop()
+    ghost("loop").append(loop)
+    ctx = make_context(loop)
+    ctx._state = fsm.Inactive(ctx)
+    pr = new_object(P.PortProtocol, _loop=loop, _context=ctx, _wait_connection_made=Fut(loop), _wait_connection_lost=None,
+                    _transport=None, _active_hgi=None, _exclude=[], _include=[], enforce_include=False, _pause_writing=False,
+                    _is_evofw3=None, _msg_handler=None, _msg_handlers=[])
+    ctx._protocol = pr
+    same = sym_bool("the_same_dongle_comes_back")
+    t1, t2 = FakeTransport("18:111111"), FakeTransport("18:111111" if same else "18:222222")
+    o = outcome(pr.connection_made, t1, ramses=True)
+    _let_time_pass(loop, ctx, [], 20)
+    check(And(o.ok, isinstance(ctx._state, fsm.IsInIdle), pr._active_hgi == "18:111111"), "a connection made activates the sender and the gateway id")
+    err = exc.TransportError("gone") if sym_bool("lost_with_an_error") else None
+    o = outcome(pr.connection_lost, err)
+    _let_time_pass(loop, ctx, [], 20)
+    check(And(o.ok, isinstance(ctx._state, fsm.Inactive)), "a connection lost makes the sender inactive")
+    o = outcome(pr.connection_made, t2, ramses=True)
+    _let_time_pass(loop, ctx, [], 20)
+    check(o.ok, "making the connection again does not raise")
+    check(isinstance(ctx._state, fsm.IsInIdle), "and the sender is idle again")
+    check(pr._active_hgi == t2.hgi_id, "and the gateway id in use is that of the transport now connected")
+    cmd = FakeCmd("next")
+    cmd.src = FakeAddr("18:000730")
+    caller = spawn(ctx.send_cmd(radio_write, cmd, 2, FakeQos(0, 3.0, False)), start=False)
+    ghost("current_caller").append(caller)
+    start(caller)
+    n = 0
+    while loop.ready and n < 20:
+        run_one(loop, ctx)
+        n += 1
+    check(And(len(ghost("sent")) == 1, last_sent() is cmd), "a fresh command is then transmitted")
+    check(len(loop.unhandled) == 0, "nothing reached the loop's exception handler")
+
+
+@harness(("C07", "C09"), cases=[(k,) for k in (2, 3)], quick=lambda k: k <= 2, budget_s=1500, stubs=STUBS)
+def a_second_caller_arrives_at_any_moment(k):
+    """Caller A's command is under way; a second caller B (another command) calls send_cmd at ANY moment
+    among k outside events -- A's echo / reply arrive, the running timer expires, A's caller times out --
+    e.g. in the very loop iteration in which A's timeout has cancelled A's future but A has not yet run.
+    B's device is responsive: once B's command has been transmitted its echo and its reply arrive.  Then:
+    B is transmitted exactly once and gets the reply to ITS command; A gets a packet of its own or a
+    protocol error; nothing reaches the loop's exception handler; the sender ends idle."""
+    loop = Loop()
+    ghost("loop").append(loop)
+    ctx = make_context(loop)
+    a, b = FakeCmd("A"), OtherCmd("B")
+    a.src = FakeAddr("18:000730")
+    pk = {"echo_a": FakePkt(a.tx_header, src="18:123456", dst="01:145038"), "reply_a": FakePkt(a.rx_header),
+          "echo_b": FakePkt(b.tx_header, src="18:123456", dst="01:145038"), "reply_b": FakePkt(b.rx_header)}
+    ta = spawn(ctx.send_cmd(radio_write, a, 2, FakeQos(1, 3.0, True)), start=False)
+    tb = spawn(ctx.send_cmd(radio_write, b, 2, FakeQos(0, 3.0, True)), start=False)
+    ghost("current_caller").append(ta)
+    start(ta)
+    fut_a = ctx._que.items[0][4]
+    timed_out = b_called = False
+    for i in range(k + 1):
+        n = 0
+        while loop.ready and n < 12 and sym_bool(f"run_queued_{i}_{n}"):
+            run_one(loop, ctx)
+            n += 1
+        ev = sym_choice(f"event_{i}", ["echo_a", "reply_a", "timer", "a_times_out", "b_calls"]) if i < k else "b_calls"
+        if ev in pk:
+            if not any(c is a for c in ghost("sent")):
+                assume(False)
+            loop.ready.append(("pkt", pk[ev]))
+        elif ev == "timer":
+            lt = ctx._expiry_timer
+            if lt is None or not lt.sleeping or lt.is_cancelled:
+                assume(False)
+            lt.sleeping = False
+            loop.ready.append(("wake", lt))
+        elif ev == "a_times_out":
+            if timed_out or ta.done or fut_a.done():
+                assume(False)
+            timed_out = True
+            loop.ready.append(("cancel_fut", fut_a))
+        elif not b_called:
+            b_called = True
+            loop.ready.append(("caller", tb))
+        elif i < k:
+            assume(False)  # B calls once
+    steps = 0
+    told = []
+    while True:
+        steps += 1
+        if steps > 150:
+            assume(False)
+        if loop.ready:
+            run_one(loop, ctx)
+            continue
+        if any(c is b for c in ghost("sent")) and not tb.done and len(told) < 2:
+            told.append(("echo_b", "reply_b")[len(told)])  # B's device answers: first the echo, then the reply
+            loop.ready.append(("pkt", pk[told[-1]]))
+            continue
+        lt = ctx._expiry_timer
+        if lt is not None and lt.sleeping and not lt.is_cancelled:
+            lt.sleeping = False
+            loop.ready.append(("wake", lt))
+            continue
+        break
+    check(len(loop.unhandled) == 0, "no exception is left unhandled in the event loop (no internal consistency check trips)")
+    check(len([c for c in ghost("sent") if c is b]) == 1, "the second caller's command is transmitted exactly once")
+    check(And(tb.done, tb.ok), "a command sent to a responsive device succeeds, whenever its caller arrived")
+    if tb.done and tb.ok:
+        check(tb.value is pk["reply_b"], "a caller that awaits a reply gets the reply to ITS command, never another command's packet")
+    check(ta.done, "every caller has been answered")
+    if ta.done and ta.ok:
+        check(ta.value is pk["reply_a"], "the first caller gets the reply to ITS command")
+    elif ta.done:
+        check(isinstance(ta.exc, exc.ProtocolError), "a send that does not return a packet raises a protocol error")
     check(And(isinstance(ctx._state, fsm.IsInIdle), ctx._cmd is None, ctx._fut is None or ctx._fut.done(), ctx._expiry_timer is None,
               len(ctx._que.items) == 0), "once traffic stops the sender is idle with nothing in flight and nothing queued")
 
